@@ -117,6 +117,11 @@ def apply(path, specs):
             if idxs:
                 break
         if len(idxs) < occ:
+            if os.environ.get("E3_HOOKS_LENIENT"):
+                # a seeded change rewrote the anchor statement: this one yield point is left out (only the interleaving
+                # engine needs it; tools/seedapply says so)
+                print("hook left out (anchor lost): %s #%d in %s" % (anchor, occ, path))
+                continue
             sys.exit("anchor lost: %s #%d in %s" % (anchor, occ, path))
         i = idxs[occ - 1]
         ind = re.match(r"\t*", lines[i]).group(0)
